@@ -40,7 +40,9 @@ CONSTANTS
   BigSize,      \* bytes of a record larger than what is left in the bufio buffer
   MaxBig,       \* how many big records
   TornSizes,    \* representative torn offsets: {0 < in crc < 4 <= in length < 8 <= in data}
-  ResyncSet     \* resynchronisation choices of a desynchronised decoder (0 = never)
+  ResyncSet,    \* resynchronisation choices of a desynchronised decoder (0 = never)
+  ReplayEchoes  \* catch-up replay makes the node log again: handleMsg -> newStep -> wal.Write(EventDataRoundState)
+                \* (wal.go: "currently the wal is overwritten during replay catchup")
 
 VARIABLES
   w,            \* the WAL (TMWalOps)
@@ -112,8 +114,11 @@ Reopen ==
                     /\ \A k \in 1..Len(crashApplied) :
                           crashApplied[k] \in MustKeep => crashApplied[k] \in WSetOf(restored)
              ELSE restored = << >>
-       IN /\ w' = r.w
-          /\ written' = written \o new
+           \* what the replayed handlers write while catching up (buffered, not synced)
+           echo == IF ReplayEchoes /\ r.res = "ok" /\ Len(r.replay) > 0
+                   THEN <<[id |-> NextId + r.neh0, kind |-> "rs", h |-> csH, size |-> SmallSize]>> ELSE << >>
+       IN /\ w' = IF Len(echo) = 0 THEN r.w ELSE WriteRec(r.w, echo[1])
+          /\ written' = written \o new \o echo
           /\ acked' = acked \cup {new[k].id : k \in 1..Len(new)}
           /\ curH' = csH /\ mode' = "run"
           /\ applied' = restored
